@@ -138,6 +138,70 @@ pub fn hasher_panic_drop<const N: usize, const N2: usize>(full: u64, del: u64, a
     unsafe { assert!(A_LIVE == 0) };
 }
 
+/// The in-place rehash routine entered directly (hook `v_rehash_in_place`; through the public API
+/// it is reached from `reserve` when the free room is locked up in tombstones, which needs two
+/// groups — too large for a symbolic pre-state, see DESIGN section 12). From ANY Inv state: hasher
+/// panics at its k-th call => valid table, len() == #FULL == what iteration yields, every element
+/// still present or (drop glue) dropped exactly once; no panic => same multiset, Inv.
+pub fn rehash_hook_panic<const N: usize>(items: usize, with_drop_glue: bool) {
+    reset_ledger();
+    let h: [u64; K] = any();
+    arm(items + 1);
+    if with_drop_glue {
+        let mut t: HashTable<D> = HashTable::with_capacity(capreq(N));
+        let st = fill::<D, _, N>(hv::raw_of_table(&mut t), Spec { items, deleted: 0, kind: InvKind::Full, h: &h, distinct: true, id_is_slot: false, layout: None, concrete_tags: None });
+        let panicked = guarded(|| unsafe {
+            hv::raw_of_table(&mut t).v_rehash_in_place(|v| {
+                if tick_and_maybe_fail() {
+                    return 0;
+                }
+                h[v.id as usize]
+            })
+        });
+        let post = snap::<D, _, N>(hv::raw_of_table_ref(&t));
+        let q = any_id();
+        if panicked {
+            assert!(inv::<N>(&post, InvKind::Safe, &h, false, false));
+            assert!(t.len() == post.count_full());
+            assert!(post.mult(q) as u8 + drops(q) == st.mult(q) as u8);
+        } else {
+            assert!(inv::<N>(&post, InvKind::Full, &h, true, true));
+            assert!(post.mult(q) == st.mult(q) && drops(q) == 0);
+        }
+        kani::cover!(panicked, "hasher panicked");
+        drop(t);
+        assert!(drops(q) == st.mult(q) as u8);
+    } else {
+        let mut t: HashTable<u32> = HashTable::with_capacity(capreq(N));
+        let st = fill::<u32, _, N>(hv::raw_of_table(&mut t), Spec { items, deleted: 0, kind: InvKind::Full, h: &h, distinct: true, id_is_slot: false, layout: None, concrete_tags: None });
+        let panicked = guarded(|| unsafe {
+            hv::raw_of_table(&mut t).v_rehash_in_place(|v| {
+                if tick_and_maybe_fail() {
+                    return 0;
+                }
+                h[v.id() as usize]
+            })
+        });
+        let post = snap::<u32, _, N>(hv::raw_of_table_ref(&t));
+        let q = any_id();
+        if panicked {
+            assert!(inv::<N>(&post, InvKind::Safe, &h, false, false));
+            assert!(t.len() == post.count_full()); // len() equals the number of elements it holds
+            let mut n = 0;
+            for _ in t.iter() {
+                n += 1;
+            }
+            assert!(n == t.len()); // ... and yields
+            assert!(post.mult(q) <= st.mult(q));
+        } else {
+            assert!(inv::<N>(&post, InvKind::Full, &h, true, true));
+            assert!(post.mult2(q, st.lookup(q).unwrap_or(0)) == st.mult(q));
+        }
+        kani::cover!(panicked, "hasher panicked");
+        core::mem::forget(t);
+    }
+}
+
 // -------------------------------------------------------------------------------- Clone panics
 
 pub static mut CL_DROPS: [u8; K] = [0; K];
